@@ -1,8 +1,10 @@
 package main
 
 import (
+	"fmt"
 	"net/url"
 	"strings"
+	"time"
 )
 
 func mustURL(s string) *url.URL {
@@ -23,6 +25,15 @@ func scale(r *Run, quick, thorough int) int {
 
 func init() {
 	checks["C01"] = func(r *Run) {
+		for _, store := range []string{"mem", "redis"} {
+			busySession(r, store, 300*time.Second, 100*time.Second, 90*time.Second)
+			busySession(r, store, 300*time.Second, 0, 70*time.Second)
+			busySession(r, store, 0, 100*time.Second, 101*time.Second)
+		}
+		if r.unknownViolations() > 0 {
+			r.Finish("busy sessions past the absolute session timeout")
+			return
+		}
 		runHistories(r, profile{Hostile: 25, Faults: 30, Attack: 15, Logout: 6, Ticks: 18, OddRequest: true, Histories: scale(r, 60, 1500), Length: 45}, histRule)
 	}
 	checks["C02"] = func(r *Run) {
@@ -37,8 +48,11 @@ func init() {
 			}
 		}
 		r.Extra["interleavings_executed"] = n
+		if r.unknownViolations() == 0 {
+			ownKeySets(r, "[C02]") // the real key provider shared by several filters with different key sets
+		}
 		if r.unknownViolations() > 0 {
-			r.Finish("interleavings of a forged refresh answer with a concurrent check of the same session")
+			r.Finish("interleavings of a forged refresh answer with a concurrent check of the same session; several filters on one key provider")
 			return
 		}
 		runHistories(r, profile{Hostile: 70, Faults: 3, Attack: 8, Logout: 3, Ticks: 18, Histories: scale(r, 60, 1500), Length: 45}, histRule)
@@ -111,4 +125,34 @@ func init() {
 		runHistories(r, profile{Hostile: 10, Faults: 5, Attack: 45, Logout: 4, Ticks: 8, OddRequest: true, Histories: scale(r, 50, 1500), Length: 50},
 			"(a) every interleaving of the callback of one login with a replay of it and/or the same state and code presented under another session's cookie, under the controlled scheduler, memory and Redis store, followed by a sequential replay; (b) "+histRule)
 	}
+}
+
+// busySession: a login, then a request every `step` - more often than the idle limit asks for - until well past the
+// absolute session timeout, with tokens that stay valid throughout. Activity extends the idle limit only: once the
+// absolute limit is over the cookie is worth nothing (judged by the session-lifetime ghost of the monitors; every
+// line is also executed on the model).
+func busySession(r *Run, store string, abs, idle, step time.Duration) {
+	c := genCfg(r, false, 0)
+	c.Store, c.Abs, c.Idle, c.Access, c.Logout = store, abs, idle, false, false
+	s := newHSim(r, c)
+	defer s.close()
+	gen := func() [4]string {
+		return [4]string{s.uniq("sid"), s.uniq("nonce"), s.uniq("state"), s.uniq("VERIFIER-marker")}
+	}
+	q1 := hReq{Scheme: "https", Host: "app.example.com", Path: "/app", Gen: gen(), KeysOK: true, IDP: idpAnswer{Kind: "transport"}}
+	s.do(q1)
+	iss := s.issued[q1.Gen[0]]
+	if iss == nil {
+		return
+	}
+	cb := mustURL(c.CallbackURI)
+	a := idpAnswer{Kind: "body", TokenType: "Bearer", ExpiresIn: i64(7200),
+		ID: mintToken(tokSpec{Mode: "good", Exp: s.w.rig.clock.Now().Unix() + 7200, Aud: c.ClientID, Nonce: iss.Nonce, Sub: "user", Extra: s.uniq("j")})}
+	s.do(hReq{Scheme: cb.Scheme, Host: cb.Host, Path: cb.EscapedPath() + "?code=" + s.uniq("code") + "&state=" + iss.State, Cookie: c.cookieName() + "=" + iss.Sid,
+		Gen: gen(), KeysOK: true, IDP: a})
+	for t := time.Duration(0); t < abs+3*step && !s.stop; t += step {
+		s.tick(step)
+		s.do(hReq{Scheme: "https", Host: "app.example.com", Path: "/app/page", Cookie: c.cookieName() + "=" + iss.Sid, Gen: gen(), KeysOK: true, IDP: idpAnswer{Kind: "transport"}})
+	}
+	r.Case(fmt.Sprintf("busy|%s|%v|%v|%v", store, abs, idle, step))
 }
